@@ -62,6 +62,9 @@ type Conn struct {
 	// BeforeWriteReturn, if set, is called after the bytes of a Write were
 	// handed to the underlying connection and before Write returns.
 	BeforeWriteReturn func(n int)
+	// OnWrite, if set, is called with the bytes of every Write before they are
+	// handed to the underlying connection (in the caller's goroutine).
+	OnWrite func(b []byte)
 	// AfterRead, if set, is called with the number of bytes a Read returned.
 	AfterRead func(n int)
 }
@@ -163,6 +166,9 @@ func (c *Conn) Read(b []byte) (int, error) {
 }
 
 func (c *Conn) Write(b []byte) (int, error) {
+	if c.OnWrite != nil {
+		c.OnWrite(b)
+	}
 	if f := c.hit(Write); f != nil {
 		switch f.Mode {
 		case "callback":
